@@ -65,10 +65,11 @@
 //!                                 dot(q) >= 0, dot(q)^2 >= L2,  L2 - dot(q) >= 0, (L2 - dot(q))^2 >= L2
 //!                                                      (projection at least 1 px inside both ends),
 //!                             for w >= 2 and non-zero length. At the middle this is the text's "w - 1
-//!                             pixels wide" read as a solid width (w - 2 plus one pixel); away from the
-//!                             middle it states the same for the whole segment, which the code satisfies
-//!                             (no hole on any generated op, also with the end margin 0): one missing
-//!                             interior parallel, which the extent metric cannot see, fails it.
+//!                             pixels wide" read as a solid width (w - 2 plus one pixel): only holes in
+//!                             the middle slab of `thick-middle-width` fail the class; holes elsewhere are
+//!                             counted (`obs:thick-hole-away-from-the-middle`; none on any generated op,
+//!                             also with the end margin 0) because the text speaks of the middle only.
+//!                             One missing interior parallel, which the extent metric cannot see, fails it.
 //!   C17:thick-width1          for w = 1 the pixel list equals `points()` (same order)
 //!   zero-length lines (L2 = 0; the code strokes them as a horizontal line of length 0): the band /
 //!   ends / middle predicates are evaluated with d = (1, 0), L2 = 1, the direction the code uses.
@@ -193,8 +194,20 @@ pub fn thick_oracle(ctx: &mut Ctx, s: Point, e: Point, w: u32, px: &[Point]) {
         format!("{:?}->{:?} w={} middle slab has {} px, perpendicular extent*L = {}", s, e, w, nmid, ext)
     });
     let hs = holes(s, e, w, &set, 1);
-    ctx.expect(hs.is_empty(), "C17:thick-hole", || {
-        format!("{:?}->{:?} w={} {} lattice points within w/2-1 of the line and 1 px inside the ends are not stroked, e.g. {:?}", s, e, w, hs.len(), hs[0])
+    // The text speaks of the width "at its middle": only holes in the middle slab (projection within one
+    // pixel of the midpoint, the slab of `thick-middle-width`) are failures; holes elsewhere are counted as
+    // an observation (a check must not demand more than the text; the correspondence sees them anyway).
+    let (ddx, ddy) = ((e.x - s.x) as i128, (e.y - s.y) as i128);
+    let in_mid = |q: &Point| {
+        let dot = ddx * (q.x - s.x) as i128 + ddy * (q.y - s.y) as i128;
+        (2 * dot - l2) * (2 * dot - l2) <= 4 * l2
+    };
+    let mid_holes: Vec<Point> = hs.iter().filter(|q| in_mid(q)).copied().collect();
+    if hs.len() > mid_holes.len() {
+        ctx.count("obs:thick-hole-away-from-the-middle");
+    }
+    ctx.expect(mid_holes.is_empty(), "C17:thick-hole", || {
+        format!("{:?}->{:?} w={} {} lattice points within w/2-1 of the line in the middle slab are not stroked, e.g. {:?}", s, e, w, mid_holes.len(), mid_holes[0])
     });
 }
 
